@@ -33,6 +33,22 @@ func genEntries(r *rng, o entOpts) (es []Ent, dataLen uint64) {
 		case o.shared && len(es) > 0 && r.chance(20):
 			p := es[r.intn(len(es))]
 			off, length = p.Off, p.Len
+		case o.bigVals && len(es) > 0 && r.chance(12):
+			// near misses of "contiguous with the previous entry": equal only modulo 2^8/2^16/2^32, or off by one
+			p := es[len(es)-1]
+			pe := p.Off + uint64(p.Len)
+			d := []uint64{1 << 32, 2 << 32, 1 << 16, 1 << 8, 1, 1 << 33, 1 << 40}[r.intn(7)]
+			if r.chance(35) && pe >= d {
+				off = pe - d
+			} else {
+				off = pe + d
+			}
+			if off >= 1<<62 {
+				off = pe
+			}
+			if off+uint64(length) > next {
+				next = off + uint64(length)
+			}
 		case o.bigVals && r.chance(10):
 			off = r.u64n(1 << uint(20+r.intn(42)))
 			if off+uint64(length) > next {
